@@ -240,6 +240,18 @@ func runC09(r *core.Run) {
 			r.Sample(map[string]any{"input_len": len(in), "input_head": b2s(in, 300)})
 		}
 	})
+	// Real crash output of the repository's cmd/panic scenarios under the same schedules.
+	names := realCrashNames()
+	r.Set("real_crash_scenarios", len(names))
+	core.Parallel(len(names), workers(), func(k int) {
+		in := append(append([]byte("log line before\n"), realCrashes()[names[k]]...), "exit status 2\ntrailing text\n"...)
+		base := scanWith(in, &delivery{})
+		rr := core.NewRand(r.Seed, 93, uint64(k))
+		for _, s := range schedulesFor(rr, in, !r.Quick()) {
+			c09Eval(r, in, &base, s.d, "real:"+s.name)
+			r.Distinct(core.Hash64(in) ^ core.HashStr(s.name))
+		}
+	})
 	// Exhaustive chunkings of short inputs.
 	shorts := []string{
 		"a\n==\n\nb", "x\r\ny\r\n", "\n\n\n", "===\nWARNING\n", "ab\ngoroutine",
